@@ -401,7 +401,7 @@ def jobs(tier="quick", seed=0):
 # ====================================================================================================================
 ET = gtirb.EdgeType
 B1_OUT = {True: ["ft", "jmp", "jcc", "call", "ret"], False: ["none", "ft"]}          # keyed by "block is non-empty"
-B2_OUT = {True: ["ft", "jmp", "jcc", "call", "ret"], False: ["none", "ft"]}
+B2_OUT = {True: ["ft", "jmp", "jcc", "call", "ret", "selfloop"], False: ["none", "ft"]}
 
 
 def build_e(s1, s2, o1, o2, extra_in, labels, funcs):
@@ -433,6 +433,9 @@ def build_e(s1, s2, o1, o2, extra_in, labels, funcs):
             ret_sites.append(ft_target)
         elif kind == "ret":
             add_edge(cfg, b, add_proxy_block(m), ET.Return)
+        elif kind == "selfloop":                        # the block's last instruction branches back to the block's own start
+            add_edge(cfg, b, b, ET.Branch, conditional=True)
+            add_edge(cfg, b, ft_target, ET.Fallthrough)
     out(b1, o1, b2)
     out(b2, o2, nxt)
     if ret_sites:
